@@ -23,8 +23,8 @@ RULE = ("all written rule trees with <=k branches (root with/without own conclus
 ASSUMPTIONS = ["two refinement siblings in one block, next_rule inside a refinement or alternative block, an alternative "
                "written after a next_rule in the same block, and conclusions not covering the branch's variables are "
                "outside the statement (it does not define them)"]
-BOUNDS = {"quick": {"branches": 6, "branches_two_variables": 5, "branches_condition_styles": 4},
-          "thorough": {"branches": 7, "branches_two_variables": 6, "branches_condition_styles": 5}}
+BOUNDS = {"quick": {"branches": 6, "branches_two_variables": 5, "branches_condition_styles": 4, "branches_two_blocks": 4},
+          "thorough": {"branches": 7, "branches_two_variables": 6, "branches_condition_styles": 5, "branches_two_blocks": 5}}
 CHUNK = 20
 RECYCLE_CHUNKS = 10
 BUDGET_S = {"quick": 900, "thorough": 8000}
@@ -112,6 +112,12 @@ def cases(tier, seed):
                 continue
             for style in STYLES:
                 out.append(("style", style, b))
+    # the tree written in two `with query:` blocks, split after every root-level statement
+    for n in range(2, BOUNDS[tier]["branches_two_blocks"] + 1):
+        for b in blocks(n, "root"):
+            nstatements = (1 if b[0] else 0) + (1 if b[1] is not None else 0) + len(b[2])
+            for split in range(1, nstatements):
+                out.append(("blocks", split, b))
     return out
 
 
@@ -144,7 +150,7 @@ class RSide:
         return self.name
 
 
-def build_and_run(block, two_vars=False, style=None):
+def build_and_run(block, two_vars=False, style=None, split=None):
     from krrood.entity_query_language.entity import entity, let, inference
     from krrood.entity_query_language.quantify_entity import an
     from krrood.entity_query_language.conclusion import Add
@@ -188,8 +194,29 @@ def build_and_run(block, two_vars=False, style=None):
                 with next_rule(cond(fb[0])):
                     body(fb)
 
-    with query:
-        body(nb)
+    if split is None:
+        with query:
+            body(nb)
+    else:
+        # the same tree written in TWO `with query:` blocks: the first `split` root-level statements (conclusion,
+        # refinement, follow-ups in the order they are written) in the first block, the others in a second one
+        i, has_c, ref, fol = nb
+        statements = ([("conclusion",)] if has_c else []) + ([("refinement", ref)] if ref is not None else []) \
+            + [(kind, fb) for kind, fb in fol]
+
+        def write(st):
+            if st[0] == "conclusion":
+                body((i, True, None, ()))
+            elif st[0] == "refinement":
+                body((i, False, st[1], ()))
+            else:
+                body((i, False, None, (st,)))
+        with query:
+            for st in statements[:split]:
+                write(st)
+        with query:
+            for st in statements[split:]:
+                write(st)
     results = list(query.evaluate())
     got = {}
     for r in results:
@@ -201,16 +228,21 @@ def run_case(block):
     res = CaseResult()
     two_vars = block[0] == "two_vars"
     style = None
+    split = None
     if two_vars:
         block = block[1]
     elif block[0] == "style":
         style, block = block[1], block[2]
+    elif block[0] == "blocks":
+        split, block = block[1], block[2]
     k = rdr.size(block)
     text = "\n".join(["with query(c0):"] + ["    " + l for l in rdr.show(block)])
+    if split is not None:
+        text = f"[written in two `with query:` blocks, the second one starts with root-level statement #{split + 1}]\n" + text
     if style:
         text = f"[conditions written as: {', '.join('c%d=%s' % (i, STYLES[style](i)) for i in range(k))}]\n" + text
     try:
-        dom, got, k = build_and_run(block, two_vars, style)
+        dom, got, k = build_and_run(block, two_vars, style, split)
     except Exception as e:
         res.failures.append(Failure("crash", f"{text}\n{type(e).__name__}: {e}"))
         return res
@@ -231,8 +263,9 @@ def run_case(block):
     res.evaluations = len(dom)
     res.outcome_key = tuple(sorted((n, tuple(t)) for n, t in got.items()))
     if k >= 2:
-        res.nontrivial_key = (two_vars, style, block)
-    res.features = {"branches:%d" % k, "two_vars" if two_vars else "one_var", "style:%s" % (style or "cmp")} | {"has:" + kk for kk in kinds_in(block)}
+        res.nontrivial_key = (two_vars, style, split, block)
+    res.features = {"branches:%d" % k, "two_vars" if two_vars else "one_var", "style:%s" % (style or "cmp"),
+                    "two-blocks" if split is not None else "one-block"} | {"has:" + kk for kk in kinds_in(block)}
     if wrong:
         n, g, e = wrong[0]
         res.failures.append(Failure("wrong-conclusions", f"{text}\nfor the binding with condition values {n[1:]}: inferred tags {g}, "
@@ -283,12 +316,13 @@ def classify(case, failure):
 
 
 def cluster_key(case, f):
-    block = case[1] if case[0] == "two_vars" else case[2] if case[0] == "style" else case
-    return tuple(sorted(shape_signature(block))) + (case[0] if case[0] in ("two_vars", "style") else "",)
+    block = case[1] if case[0] == "two_vars" else case[2] if case[0] in ("style", "blocks") else case
+    return tuple(sorted(shape_signature(block))) + (case[0] if case[0] in ("two_vars", "style", "blocks") else "",)
 
 
 def finish(run):
-    if run.exhaustive and not (run.features.get("has:refinement") and run.features.get("style:bare") and run.features.get("style:pred")):
+    if run.exhaustive and not (run.features.get("has:refinement") and run.features.get("style:bare") and run.features.get("style:pred")
+                               and run.features.get("two-blocks")):
         raise HarnessError("vacuous")
 
 
